@@ -29,6 +29,9 @@ import (
 	"github.com/krotik/common/timeutil"
 	"pgregory.net/rapid"
 
+	"github.com/krotik/ecal/util"
+
+	"verif/internal/erun"
 	"verif/internal/hx"
 	"verif/internal/lang"
 )
@@ -47,6 +50,15 @@ type Case struct {
 }
 
 func TestMain(m *testing.M) { hx.Main(m, "C06", rule) }
+
+// bareSrc puts the candidate after the prelude. The semicolon keeps a candidate which
+// starts with a prefix operator from continuing the last prelude statement.
+func bareSrc(c Case) string {
+	if c.Pre == "" {
+		return c.Src
+	}
+	return c.Pre + ";" + c.Src
+}
 
 func wrap(c Case) string {
 	return c.Pre + "caught := null\ntry {\n" + c.Src + "\n} except e {\n    caught := e.type\n}\n"
@@ -81,7 +93,7 @@ func runCase(c Case) *hx.Failure {
 	}
 
 	// bare
-	bare := exec(c.Pre+c.Src, c.Budget, false)
+	bare := exec(bareSrc(c), c.Budget, false)
 	if bare.exhausted() {
 		return discard("unspecified.step-budget-exhausted")
 	}
@@ -89,7 +101,7 @@ func runCase(c Case) *hx.Failure {
 		return finish(bare.panicked, "bare.panic")
 	}
 	if bare.workerLoss != "" {
-		return finish(hx.Failf("worker-died", "%s after\n%s", bare.workerLoss, c.Pre+c.Src))
+		return finish(hx.Failf("worker-died", "%s after\n%s", bare.workerLoss, bareSrc(c)))
 	}
 	berr := bare.anyErr()
 	bareRaised := false
@@ -101,7 +113,7 @@ func runCase(c Case) *hx.Failure {
 				classes = append(classes, "bare.control-signal")
 			} else {
 				bareRaised = true
-				classes = append(classes, "error."+short(errType(bare.err)))
+				classes = append(classes, "error."+errClass(bare.err))
 			}
 		}
 	}
@@ -142,6 +154,28 @@ func runCase(c Case) *hx.Failure {
 		}
 	}
 	return finish(nil)
+}
+
+var ecalTypes = map[string]bool{}
+
+func init() {
+	for _, e := range []error{util.ErrRuntimeError, util.ErrUnknownConstruct, util.ErrInvalidConstruct, util.ErrInvalidState, util.ErrVarAccess, util.ErrNotANumber,
+		util.ErrNotABoolean, util.ErrNotAList, util.ErrNotAMap, util.ErrNotAListOrMap, util.ErrSink, util.ErrIsIterator} {
+		ecalTypes[e.Error()] = true
+	}
+}
+
+// errClass buckets an error for the class histogram: the built-in ECAL error
+// types by name, raised types as one class, Go errors by their Go type.
+func errClass(err error) string {
+	t, _, _, _, ok := erun.ErrInfo(err)
+	switch {
+	case !ok:
+		return "go." + short(t)
+	case ecalTypes[t]:
+		return short(t)
+	}
+	return "raised-type"
 }
 
 // short makes an error type usable as a class label / signature part.
@@ -282,6 +316,35 @@ func builtinMatrix(yield func(Case) bool) {
 			}
 		}
 	}
+	// standard library functions with 0..1 arguments
+	erun.Setup()
+	for _, fn := range stdlibFuncs() {
+		for n := 0; n <= 1; n++ {
+			if !vectors(n, func(v []int) bool {
+				c := builtinCase(fn, v, nil)
+				c.Kind, c.Key = "stdlib", "std"+c.Key
+				return yield(c)
+			}) {
+				return
+			}
+		}
+	}
+	// numbers which only arithmetic produces (infinities, NaN, negative zero) in every argument position
+	for _, fn := range builtins() {
+		for _, sp := range specials {
+			for pos := 0; pos < 3; pos++ {
+				args := []string{"[1, 2, 3]", "9", "1"}[:pos+1]
+				args[pos] = sp.Lit
+				c := Case{Kind: "builtin", Src: fn + "(" + strings.Join(args, ", ") + ")", Key: fmt.Sprintf("builtin:%s(arg%d=%s)", fn, pos, sp.Name)}
+				if fn == "sleep" || fn == "setPulseTrigger" && pos == 2 {
+					c.Skip = "by-design.sleep-or-pulse-with-non-finite-duration"
+				}
+				if !yield(c) {
+					return
+				}
+			}
+		}
+	}
 	for n := 0; n <= 2; n++ {
 		if !vectors(n, func(v []int) bool {
 			if !yield(rangeLoopCase(v, nil, false)) {
@@ -303,6 +366,21 @@ func opMatrix(yield func(Case) bool) {
 			for r := range U {
 				c := Case{Kind: "op", Src: operand(l) + " " + op.Sym + " " + operand(r), Key: "op:" + op.Name + "(" + U[l].Name + "," + U[r].Name + ")"}
 				if !yield(c) {
+					return
+				}
+			}
+		}
+	}
+	for _, op := range lang.BinOps {
+		for _, sp := range specials {
+			for x := range U {
+				if !yield(Case{Kind: "op", Src: sp.Lit + " " + op.Sym + " " + operand(x), Key: "op:" + op.Name + "(" + sp.Name + "," + U[x].Name + ")"}) ||
+					!yield(Case{Kind: "op", Src: operand(x) + " " + op.Sym + " " + sp.Lit, Key: "op:" + op.Name + "(" + U[x].Name + "," + sp.Name + ")"}) {
+					return
+				}
+			}
+			for _, sp2 := range specials {
+				if !yield(Case{Kind: "op", Src: sp.Lit + " " + op.Sym + " " + sp2.Lit, Key: "op:" + op.Name + "(" + sp.Name + "," + sp2.Name + ")"}) {
 					return
 				}
 			}
@@ -428,7 +506,7 @@ func directedSets(yield func(Case) bool) {
 		{"except-var", "try {\n", "\n} except e {\n    a := [e.type, e.detail, e.error, e.pos, e.line, e.source, e.trace]\n    b := e.data\n}"},
 		{"except-type", "try {\n", "\n} except \"T\" {\n    a := 1\n}"},
 		{"except-type-as", "try {\n", "\n} except \"T\", \"\", \"<nil>\" as e {\n    a := e\n}"},
-		{"except-interpolated-type", "try {\n", "\n} except \"{{1 + \"a\"}}\", \"{{zz[5]}}\" as e {\n    a := e\n}"},
+		{"except-interpolated-type", "try {\n", "\n} except \"{{1 + 'a'}}\", \"{{zz[5]}}\" as e {\n    a := e\n}"},
 		{"except-reraise", "try {\n", "\n} except e {\n    raise(e.type, e.detail, e.data)\n}"},
 		{"except-reraise-obj", "try {\n", "\n} except e {\n    raise(e)\n}"},
 		{"except-fails", "try {\n", "\n} except e {\n    e.type[5]\n}"},
@@ -452,14 +530,15 @@ func directedSets(yield func(Case) bool) {
 
 func TestExhaustive(t *testing.T) {
 	hx.Enumerate(t, "builtins", builtinMatrix, runCase)
-	hx.E.Exhaustive("builtins", map[string]interface{}{"functions": builtins(), "argument_vectors": "length 0..2 over U", "range_as_loop_iterator": "vectors of length 0..2 (destructuring head for length 1)", "universe": universeNames()})
+	hx.E.Exhaustive("builtins", map[string]interface{}{"functions": builtins(), "argument_vectors": "length 0..2 over U; +-Inf, NaN, -0 in each of the first three positions", "stdlib_functions": "every standard library function x vectors of length 0..1", "range_as_loop_iterator": "vectors of length 0..2 (destructuring head for length 1)", "universe": universeNames()})
 	hx.Enumerate(t, "operators", opMatrix, runCase)
-	hx.E.Exhaustive("operators", "19 binary operators x U x U (literal operands), 3 prefix operators x U (literal and variable operand)")
+	hx.E.Exhaustive("operators", "19 binary operators x (U + {+Inf, -Inf, NaN, -0}) x (U + the same) (literal operands), 3 prefix operators x U (literal and variable operand)")
 	hx.Enumerate(t, "access", accessMatrix, runCase)
 	hx.E.Exhaustive("access", map[string]interface{}{"containers": names(containers), "index_kinds": inames(indexKinds), "second_level_index_kinds": inames(indexKinds2),
 		"forms": "read, write, call, dot read/write after index, del, add (x index kind); two level read / write (x index kind x second level kind); 50 dotted / call / doc / new forms"})
 	hx.Enumerate(t, "directed", directedSets, runCase)
 	hx.E.Exhaustive("directed", "48 destructuring / guard / literal / function / object forms x (U + 12 list shapes); 24 raising statements x 15 try/except shapes")
+	hx.Enumerate(t, "corpus", corpusSet, runCase)
 	hx.Enumerate(t, "sinks", sinkMatrix, runCase)
 	hx.E.Exhaustive("sinks", "each of the five sink attributes x U (declaration only); statematch value x event state value over U x U and scope argument over U through Processor.ProcessEvent; every 9th also through the pool")
 }
@@ -529,7 +608,9 @@ func randExpr(rt *rapid.T, depth int, used *[]int, sig *[]string) string {
 }
 
 func drawCase(rt *rapid.T) Case {
-	switch k := rapid.IntRange(0, 99).Draw(rt, "kind"); {
+	// rapid favours small numbers: the rarer kinds get the small slots
+	k := []int{95, 65, 75, 85, 0, 10, 20, 30, 40, 50, 55, 58}[rapid.IntRange(0, 11).Draw(rt, "kind")]
+	switch {
 	case k < 60: // (d) generated program with ill-typed mutations
 		var p *lang.Prog
 		src := "c04"
